@@ -125,5 +125,83 @@ def make_run(p):
     return run
 
 
+# ---------------------------------------------------------------------------------------------
+# go-to-definition below an unfinished try block whose last line is still being typed: the syntax
+# repair (fixsyntax._Commenter) comments the line out and INSERTS 'finally: pass', so every offset
+# and line below is mapped through the inserted text
+TRY_T = ("def make({0}, {1}=0):\n    return {0} + {1}\n{2} = 10\n%s\n    {3} = {2} + %s\n{4} = make({2}, {1}=3)\nprint({4}, {3})\n"
+         "def later({0}):\n    return {0}\n{4} = later({4})\nprint({4})\n")
+TRY_SK = Skeleton("a04_unfinished_try_above", {"main.py": TRY_T % ("if 1:", "1")})  # the valid twin (same lines, same bindings)
+TRY_TAILS = ["", "("]  # what is left of the operand being typed on line 5
+
+
+def _try_query_positions():
+    """(line, col) of every identifier start on the lines below the block, in the slot-free dummy"""
+    dummy = re.sub(r"\{(\d)\}", "z", TRY_T % ("try:", ""))
+    out = []
+    for ln, text in enumerate(dummy.split("\n"), 1):
+        if ln >= 6:
+            for mm in re.finditer(r"[A-Za-z_][A-Za-z_0-9]*", text):
+                out.append((ln, mm.start()))
+    return out
+
+
+def make_try_run(p):
+    ln, col = p["pos"]
+
+    def run():
+        E = core.ENGINE
+        sk = TRY_SK
+        names = make_names(sk, alphabet=[(ord(c), ord(c)) for c in "ghjkmq"])
+        pat = force_partition(names)
+        from rsx.proj import build
+
+        tail = TRY_TAILS[choose("tail", len(TRY_TAILS))]
+        broken = build(TRY_T % ("try:", tail), names)
+        twin = build(TRY_T % ("if 1:", "1"), names)
+        m = E.fresh_model()
+        cb, ct = concretize(broken, m), concretize(twin, m)
+        if not program_ok({"main.py": ct}):
+            raise PathAbort()
+        lb = cb.split("\n")
+        lt = ct.split("\n")
+        off_b = sum(len(x) + 1 for x in lb[:ln - 1]) + col
+        off_t = sum(len(x) + 1 for x in lt[:ln - 1]) + col
+        maxfixes = (1, 3)[choose("maxfixes", 2)]
+        with SymProject() as sp:
+            try:
+                loc = codeassist.get_definition_location(sp.proj, broken, off_b, maxfixes=maxfixes)
+                defloc = [None if loc[0] is None else loc[0].path, loc[1]]
+            except rex.RopeError:
+                return {"refused": True}
+            except (PathAbort, Unsupported):
+                raise
+            except Exception as e:
+                return h.fail("internal_error", "get_definition_location raised %s: %s" % (type(e).__name__, e), model=m, skeleton=sk.name, src=broken, full=twin, offset=off_b, twin_offset=off_t, maxfixes=maxfixes, later_locals=False, truncated=True, trymode=True)
+        end_of_path(sk)
+        m = E.fresh_model()
+        cb, ct = concretize(broken, m), concretize(twin, m)
+        problems = c20_judge.judge(ct, ct, off_t, None, defloc, False)
+        if problems:
+            f_ = h.fail("assist_unsound", "; ".join(problems[:3]), model=m, skeleton=sk.name, src=broken, full=twin, offset=off_b, twin_offset=off_t, maxfixes=maxfixes, later_locals=False, truncated=True, trymode=True)
+            f_["sig_hint"] = "trydef:" + ",".join(sorted({x.split(":")[0] for x in problems}))
+            return f_
+        return h.sample(skeleton=sk.name, src=broken, offset=off_b, defloc=defloc)
+
+    return run
+
+
+_BASE_INSTANCES = instances
+
+
+def instances(tier):  # noqa: F811
+    out = _BASE_INSTANCES(tier)
+    for i, pos in enumerate(_try_query_positions()):
+        out.append(("trydef.l%02dc%02d" % pos, dict(kind="trydef", pos=list(pos))))
+    return out
+
+
 def run_instance(name, params, seconds):
+    if params.get("kind") == "trydef":
+        return h.explore_instance(make_try_run(params), seconds)
     return h.explore_instance(make_run(params), seconds)
